@@ -298,6 +298,10 @@ func (r *Run) after(st Step, msg sdk.Msg, res StepResult) {
 		// the committed block is now what a node serves: let the repository's client code find
 		// the requests of this block again from their IDs
 		checkClientRecovery(r.mon, sc)
+		// ... and, every third block, ask every query through the application's ABCI Query endpoint
+		if r.mon.c17 != nil && len(r.w.appHashes)%3 == 0 {
+			r.mon.c17.sampleVia(&StepCtx{Idx: sc.Idx, Step: sc.Step, Res: &StepResult{OK: true}, Pre: r.pre, Post: r.pre, run: r}, true)
+		}
 	}
 	r.lastRes = res
 	if len(r.hist.Steps) >= r.maxSteps {
